@@ -776,6 +776,9 @@ where
     Ok(invalid_headers)
 }
 
+/// [`handle_header_of`] for a message that does not answer a HEAD request
+/// (kept for the tests of this module).
+#[cfg(test)]
 #[allow(clippy::too_many_arguments)]
 pub fn handle_header<C>(
     decoder: &mut loona_hpack::Decoder<'static>,
@@ -788,6 +791,42 @@ pub fn handle_header<C>(
     max_header_list_size: u32,
     max_header_fields: u32,
     elide_x_real_ip: bool,
+) -> Result<(), (H2Error, bool)>
+where
+    C: ParserCallbacks<Checkout>,
+{
+    handle_header_of(
+        decoder,
+        prioriser,
+        stream_id,
+        kawa,
+        input,
+        end_stream,
+        callbacks,
+        max_header_list_size,
+        max_header_fields,
+        elide_x_real_ip,
+        false,
+    )
+}
+
+/// [`handle_header`] for a caller that knows which request the message
+/// answers: `head_response` is true for the response to a HEAD request, which
+/// may declare a Content-Length and carry no content (RFC 9113 §8.1.1,
+/// RFC 9110 §9.3.2).
+#[allow(clippy::too_many_arguments)]
+pub fn handle_header_of<C>(
+    decoder: &mut loona_hpack::Decoder<'static>,
+    prioriser: &mut Prioriser,
+    stream_id: StreamId,
+    kawa: &mut GenericHttpStream,
+    input: &[u8],
+    end_stream: bool,
+    callbacks: &mut C,
+    max_header_list_size: u32,
+    max_header_fields: u32,
+    elide_x_real_ip: bool,
+    head_response: bool,
 ) -> Result<(), (H2Error, bool)>
 where
     C: ParserCallbacks<Checkout>,
@@ -1172,14 +1211,16 @@ where
     if end_stream {
         // RFC 9113 §8.1.1: when END_STREAM is set on HEADERS, no DATA frames
         // follow, so the payload length is 0. A non-zero Content-Length is a
-        // stream error (PROTOCOL_ERROR). Body-exempt responses (1xx, 204, 304)
-        // are excluded — they may carry Content-Length per RFC 9110 §8.6.
+        // stream error (PROTOCOL_ERROR). Body-exempt responses (1xx, 204, 304,
+        // and any response to HEAD) are excluded — they may carry
+        // Content-Length per RFC 9110 §8.6.
         if let BodySize::Length(n) = kawa.body_size {
             let body_exempt = matches!(kawa.kind, Kind::Response)
-                && matches!(
-                    kawa.detached.status_line,
-                    StatusLine::Response { code, .. } if (100..200).contains(&code) || code == 204 || code == 304
-                );
+                && (head_response
+                    || matches!(
+                        kawa.detached.status_line,
+                        StatusLine::Response { code, .. } if (100..200).contains(&code) || code == 204 || code == 304
+                    ));
             if n > 0 && !body_exempt {
                 error!(
                     "{} END_STREAM with non-zero Content-Length: {} (RFC 9113 §8.1.1)",
